@@ -88,6 +88,32 @@ def runOps : List Op → BS → List Val → List Val × BS
         let (vs, s') := s.readBatch cap
         runOps ops s' (acc ++ vs)
 
+/-! ### the destination vector of a batch read
+
+`ReadBlocksIntoVector` writes into the vector it is handed, which may still hold the items of an earlier call (any number up to its
+capacity): it overwrites from offset 0, grows the vector when a block goes past its size and cuts it to what was read when the stream
+ends before the capacity is used up. `batchLoopD` models exactly that (`dest` = the vector's contents, `off` = the write offset). -/
+
+/-- `resize(off + xs.length)` if needed, then overwrite `[off, off + xs.length)` -/
+def place (dest : List Val) (off : Nat) (xs : List Val) : List Val :=
+  dest.take off ++ xs ++ dest.drop (off + xs.length)
+
+def batchLoopD : Nat → BS → Nat → Nat → List Val → List Val × BS
+  | 0, s, _, _, dest => (dest, s)
+  | fuel + 1, s, remCap, off, dest =>
+    if s.cbr = 0 then ((if 0 < remCap then dest.take off else dest), s)      -- `if (remaining_capacity > 0) destination.resize(offset)`
+    else
+      let k := min s.cbr remCap
+      let s1 : BS := s.consume k
+      let dest1 := place dest off (s.items.take k)
+      let s2 := if s1.cbr = 0 then s1.readCount else s1
+      if remCap - k = 0 then (dest1, s2) else batchLoopD fuel s2 (remCap - k) (off + k) dest1
+
+/-- `ReadBlocksIntoVector(stream, current_block_remaining, destination)` with `destination.capacity() = cap` -/
+def readBatchInto (s : BS) (cap : Nat) (dest : List Val) : List Val × BS :=
+  let s1 := if s.cbr = 0 then s.readCount else s
+  batchLoopD (cap + 1) s1 cap 0 dest
+
 end BS
 
 end Yardl
